@@ -21,7 +21,7 @@ from engine import Op, set_mode
 
 PROP = "C19"
 QUICK_BOOST = 2
-LEAN_MODULES = ["IsoDT.Props.C19"]
+LEAN_MODULES = ["IsoDT.Props.C19", "IsoDT.Props.C19b"]
 RULE = ("argument vectors built from valid date-times in every notation (ISO basic/extended, reduced, week, "
         "ordinal, the strptime-able notations), 0-3 offsets of either sign incl. -P... spellings and every "
         "option spelling, pairs of date-times, recurrences with --max, --as-total, the four calendar modes via "
